@@ -1,11 +1,11 @@
 package bal_gslb
 
-// Bounded cross-check for property C09 at the sub-cluster level (see /verif/DESIGN.md). BalanceRR.Update - the
+// Bounded cross-check for properties C09 and C14 at the sub-cluster level (see /verif/DESIGN.md). BalanceRR.Update - the
 // merge of one backend list - is proved; BalanceGslb.Reload / BackendReload repeat the merge one level up and
 // are not under contract. Here every short history of gslb and backend reloads over a small universe (two
 // sub-clusters, two backends each) is run on the REAL BalanceGslb and compared with a model after every step:
 // no panic (a second release of a backend closes a closed channel), the sub-cluster list is the configured
-// one, each listed sub-cluster serves exactly the configured backends, a backend whose sub-cluster and address
+// one IN NAME ORDER whatever the reload history was (C14: the same configuration gives the same list), each listed sub-cluster serves exactly the configured backends, a backend whose sub-cluster and address
 // persist is the SAME object (so its availability and counters persist) and is not released, and every
 // backend that vanished is released.
 
@@ -26,6 +26,7 @@ var bc09Gslb = []gslb_conf.GslbClusterConf{
 	{"s2": 100},
 	{"s1": 100, "s2": 100},
 	{"s1": 100, "s2": 0},
+	{"s0": 100, "s2": 100}, // s0 sorts before a sub-cluster that survives: the list must be re-sorted on a one-for-one swap
 }
 
 // backend sets of one sub-cluster: bit k = backend k+1
@@ -221,5 +222,5 @@ func TestBoundedC09GslbReload(t *testing.T) {
 		}
 	}
 	rec(nil)
-	fmt.Printf("BOUNDED-CASES n=%d distinct=%d bound=every history of 1..%d (gslb reload, backend reload) steps over 4 gslb configurations of 2 sub-clusters and %d backend tables per sub-cluster (absent, or any subset of its backends); distinct = histories of at least two steps\n", cases, distinct, maxSteps, len(masks))
+	fmt.Printf("BOUNDED-CASES n=%d distinct=%d bound=every history of 1..%d (gslb reload, backend reload) steps over 5 gslb configurations of up to 3 sub-cluster names and %d backend tables per sub-cluster (absent, or any subset of its backends); distinct = histories of at least two steps\n", cases, distinct, maxSteps, len(masks))
 }
